@@ -340,7 +340,7 @@ template <class G> struct Runner {
     std::string prop, cfgName;
     Reporter &rep;
     std::vector<long> weights;
-    unsigned shard = 0, shards = 1, minEdges = 0, stride = 1;
+    unsigned shard = 0, shards = 1, minEdges = 0, stride = 1, tailLen = 0;
     Runner(const std::string &p, const std::string &c, Reporter &r) : prop(p), cfgName(c), rep(r) {}
 
     void visit(const G &g, const Model &m, const std::string &howBuilt, const std::string &replay) {
@@ -353,7 +353,17 @@ template <class G> struct Runner {
     }
 
     // direct construction from an explicit list of (i, j, value) insertions
-    void visitInsertions(unsigned n, const std::vector<std::tuple<unsigned, unsigned, long>> &ins, const std::string &family) {
+    void visitInsertions(unsigned n0, const std::vector<std::tuple<unsigned, unsigned, long>> &ins0, const std::string &family) {
+        // optional amplification gadget: a zero-weight tail path hanging off every core vertex, so that any
+        // re-expansion of a core vertex costs a whole tail of neighbourhood scans
+        unsigned n = n0;
+        std::vector<std::tuple<unsigned, unsigned, long>> ins = ins0;
+        if (tailLen > 0) {
+            for (unsigned c = 0; c < n0; ++c) {
+                unsigned prev = c;
+                for (unsigned t = 0; t < tailLen; ++t) { ins.emplace_back(prev, n, 0L); prev = n++; }
+            }
+        }
         G g(n);
         Model m;
         m.directed = T::directed;
@@ -646,6 +656,8 @@ template <class G> int runOne(const std::string &prop, const std::string &name, 
     run.shard = (unsigned)args.getInt("shard", 0);
     run.shards = (unsigned)args.getInt("shards", 1);
     run.minEdges = (unsigned)args.getInt("minedges", 0);
+    run.tailLen = (unsigned)args.getInt("tail", 0);
+    if (run.tailLen) { rep.config += "/tail" + std::to_string(run.tailLen); run.cfgName = rep.config; }
     run.stride = (unsigned)args.getInt("stride", 1); // >1: every stride-th member of the enumeration (a fixed, seed-free subset; reported as a cap)
     if (run.stride > 1) rep.cap(rep.config + ": only every " + std::to_string(run.stride) + "-th element of the enumeration is visited");
     if (run.shards > 1) rep.config += "/shard" + std::to_string(run.shard) + "of" + std::to_string(run.shards);
